@@ -9,7 +9,7 @@ use refimpl as r;
 
 fn budget(t: Tier) -> u64 {
     match t {
-        Tier::Quick => 4000,
+        Tier::Quick => 16_000,
         Tier::Thorough => 400_000,
     }
 }
